@@ -358,7 +358,7 @@ func (c *Ctx) checkCredentialOrigins(r *Report, m *gwModel) {
 						okAll = false
 					default:
 						// construction: from the handler configuration only
-						if (o.Kind == "param" || o.Kind == "freevar") && strings.Contains(typeStr(o.Root.Type()), "gateway.") && len(o.Path) >= 1 && o.Path[0] == "cfg" {
+						if (o.Kind == "param" || o.Kind == "freevar") && strings.Contains(typeStr(o.RootType()), "gateway.") && len(o.Path) >= 1 && o.Path[0] == "cfg" {
 							continue
 						}
 						if o.Kind == "binop" {
